@@ -230,6 +230,16 @@ class Program(object):
             for t in node.targets:
                 if isinstance(t, ast.Name):
                     m.assigns[t.id] = node.value
+                elif isinstance(t, (ast.Tuple, ast.List)) and all(isinstance(x, ast.Name) for x in t.elts):
+                    # A, B = x, y   /   A, B = some_pair
+                    for i, x in enumerate(t.elts):
+                        if isinstance(node.value, (ast.Tuple, ast.List)) and len(node.value.elts) == len(t.elts):
+                            m.assigns[x.id] = node.value.elts[i]
+                        else:
+                            sub = ast.Subscript(value=node.value, slice=ast.Constant(value=i), ctx=ast.Load())
+                            ast.copy_location(sub, node.value)
+                            ast.fix_missing_locations(sub)
+                            m.assigns[x.id] = sub
         elif isinstance(node, ast.If):
             # ``if typing.TYPE_CHECKING:`` blocks only import names for
             # comments; other module-level ifs are not used by the repo.
